@@ -3,8 +3,9 @@ CONSTANTS
   Threads = {"p", "c"}
   Prog <- Prog_cover
   L = 2
-  NSet = {2, 3, 4}
+  NSet = {2, 3}
   Rich = FALSE
+  Rot = TRUE
 INIT InitAll
 NEXT Next
 CHECK_DEADLOCK FALSE
